@@ -153,6 +153,10 @@ class H(Harness):
                     case['again']['edges'] = other_graph_edges(rnd, list(g.nodes()), es)
             if rnd.random() < 0.5:
                 case['hooks'] = 'observe'       # the observing sub-class does not chain occupy() to the default
+            if rnd.random() < 0.3:
+                # the prototype handed over as a FixedNetwork with a limit: exactly as many networks as the runs need
+                # (the last permitted one is still a copy), or one more
+                case['via_fixed'] = rnd.choice(['exact', 'exact', 'more'])
             out.append(case)
         return out
 
@@ -325,7 +329,14 @@ class H(Harness):
             proc.setMaximumTime(2)        # no events: the synchronous loop runs to the maximum time
         plan = [(case['T'], case['perm'])] + ([(again['T'], again['perm'])] if again else [])
         orc = install(Oracle(seed=0, script={'shuffle': [p for _, p in plan]}))
-        dyn = (SynchronousDynamics if sync else StochasticDynamics)(proc, g)
+        vf = case.get('via_fixed')
+
+        def handed(graph, uses):
+            if not vf:
+                return graph
+            from epydemic import FixedNetwork
+            return FixedNetwork(graph, limit=uses + (1 if vf == 'more' else 0))
+        dyn = (SynchronousDynamics if sync else StochasticDynamics)(proc, handed(g, 1 if g2 is not None else len(plan)))
         end = {}
         dyn.simulationEnded = lambda res: end.update(nodes=[back.get(x, -1) for x in dyn.network().nodes()], edges=[unname(e) for e in dyn.network().edges()])
         runs = []
@@ -333,7 +344,7 @@ class H(Harness):
             rec.clear(); end.clear()
             other = r == 1 and g2 is not None
             if other:
-                dyn.setNetworkGenerator(g2)
+                dyn.setNetworkGenerator(handed(g2, 1))
             before = len(orc.values('shuffle'))
             exc = None
             try:
